@@ -143,6 +143,14 @@ impl Iterator for CatchGradualDifficulty {
     }
 
     fn nth(&mut self, n: usize) -> Option<Self::Item> {
+        // As required by `Iterator::nth`, `None` is returned if there are not
+        // enough items left; all remaining items are consumed in that case.
+        if n >= self.len() {
+            while self.next().is_some() {}
+
+            return None;
+        }
+
         let skip_iter = self.diff_objects.iter().skip(self.idx.saturating_sub(1));
 
         let mut take = cmp::min(n, self.len().saturating_sub(1));
